@@ -393,6 +393,37 @@ def case_raw_pruned(rec, name, lp, proof, H, blockish, args):
             must_reject(rec, 'mut:pruned-raw', f'{name}: pruned branch at {path}: {desc}', lambda lm=lm: check_proof(lm, H), 'case_generic', args, 'generic')
             if blockish and len(lm.refs) == 1:
                 must_reject(rec, 'mut:pruned-raw', f'{name} (header check): pruned branch at {path}: {desc}', lambda lm=lm: check_block_header_proof(lm[0], H, True), 'case_generic', args, 'header')
+        # the same damaged data handed to the plain constructor under the cell's OLD type (an in-memory cell whose first data byte is not
+        # its type), and a pruned branch of another level hidden below a 'library cell' that has a reference (sixth session, wave 9)
+        variants = []
+        for i in range(8):
+            variants.append((f'type byte bit {i} flipped, constructed as a pruned branch all the same', flip(c.bits, i), [], 1, None))
+        if c.mask == 1 and path:
+            moved = c.bits[:8] + '00000010' + c.bits[16:]
+            variants.append(('hidden below a library cell with a reference, its level mask changed to 2', None, None, None, moved))
+        for desc, bits, refs, typ, moved in variants:
+            rec.state(('raw-pruned2', name, path, desc))
+            rec.covered('mut:pruned-raw')
+            try:
+                if moved is None:
+                    ba = TvmBitarray(1023)
+                    ba.extend(bits)
+                    bad = Cell(ba, refs, typ)
+                else:
+                    ba = TvmBitarray(1023)
+                    ba.extend(moved)
+                    inner = Cell(ba, [], 1)
+                    lb = TvmBitarray(1023)
+                    lb.extend('00000010' + ''.join(format(b, '08b') for b in inner.get_hash(0)))
+                    bad = Cell(lb, [inner], 2)
+                lm = lib_rebuild(lp, (0,) + path, bad)
+            except Exception:
+                rec.trans()
+                rec.outcome('unconstructible')
+                continue
+            must_reject(rec, 'mut:pruned-raw', f'{name}: pruned branch at {path}: {desc}', lambda lm=lm: check_proof(lm, H), 'case_generic', args, 'generic')
+            if blockish and len(lm.refs) == 1:
+                must_reject(rec, 'mut:pruned-raw', f'{name} (header check): pruned branch at {path}: {desc}', lambda lm=lm: check_block_header_proof(lm[0], H, True), 'case_generic', args, 'header')
 
 
 def shard_generic(rec, nmax, part, parts):
